@@ -228,6 +228,10 @@ def assemble(sess, sp, proof):
             if cn in a.auto_bodies: continue      # an auto-inlined helper that cannot be extracted: reported as missing callee below
             raise Broken('extraction of %s failed: %s' % (cn, ex))
         bodies.append((cn, u, r)); calls |= r['calls']
+        # a call through a function-pointer variable of the unit (an entry-point slot): the variable is emitted, there is no callee to resolve
+        for c in sorted(r['calls']):
+            if c in u.prelude.globals and c not in u.fn and c not in sp.stubs and not c.startswith('PlatformSpecific') and not u.global_def(c)[1]:
+                globs[c] = u; calls.discard(c); r['calls'].discard(c)
         # a callee the spec does not mention, defined in the same translation unit (a helper introduced by a refactoring):
         # verify it together with its caller instead of giving up (loops in it need unwinding like any contract-less loop)
         for c in sorted(r['calls']):
@@ -253,7 +257,7 @@ def assemble(sess, sp, proof):
     decl_text = '\n'.join(d for d, _ in sp.decls)
     # a function of the unit that the enforced contract / harness names (e.g. compares a function pointer with) and that the proof
     # lists under @replace gets its prototype and contract even when the current code no longer refers to it
-    calls |= set(re.findall(r'\b[A-Za-z_]\w*\b', spec_text)) & set(main_unit.fn) & set(proof.replace)
+    calls |= set(re.findall(r'\b[A-Za-z_]\w*\b', re.sub(r'/\*.*?\*/', ' ', spec_text, flags=re.S))) & set(main_unit.fn) & set(proof.replace)   # comments do not count
     for g in set(re.findall(r'\b[A-Za-z_]\w*\b', spec_text + decl_text)) & set(main_unit.prelude.globals):
         if g in globs: continue
         if re.search(r'^[^#\n]*(?:\w\s+\**|\*)%s\s*(?:;|=[^=]|,|\[)' % re.escape(g), decl_text, re.M): continue    # the spec declares its own variable of that name
@@ -293,7 +297,7 @@ def assemble(sess, sp, proof):
     a.dropped_replace = [c for c in proof.replace if c not in called]
     todo = sorted(called | set(a.replaced))
     for c in todo:
-        if c.startswith('__builtin_') or c in ('VERIF_operator_new', 'VERIF_throw'):
+        if c.startswith('__builtin_') or c in ('VERIF_operator_new', 'VERIF_throw') or (c in ('VERIF_operator_delete', 'VERIF_operator_delete_array') and c not in sp.stubs and not re.search(r'\b%s\s*\(' % c, extra_text)):
             if c in sp.stubs: protos.append(sp.stubs[c])
             continue
         if c in sp.stubs and not defined_in_extra(c):
